@@ -106,6 +106,7 @@ class RunBundler:
         self._sequence_counters: dict[Any, int] = dict()  # noqa: C408
         self._sequence_counters_copy: dict[Any, int] = dict()  # for if we redo data-points  # noqa: C408
         self._monitor_params: dict[Subscribable, tuple[Callback, dict]] = dict()  # noqa: C408  # cache of {obj: (cb, kwargs)}
+        self._monitor_streams: set[str] = set()  # names of the streams fed by monitors
         # a cache of stream_resource uid to the data_keys that stream_resource collects for
         self._stream_resource_data_keys: dict[str, Iterable[str]] = dict()  # noqa: C408
         self.run_is_open = False
@@ -438,6 +439,7 @@ class RunBundler:
 
         stream_bundle = await self._prepare_stream(name, {obj: self._describe_cache[obj]})
         compose_event = stream_bundle[1]
+        self._monitor_streams.add(name)
 
         def emit_event(readings: Optional[dict[str, Reading]] = None, *args, **kwargs):
             if readings is not None:
@@ -482,8 +484,16 @@ class RunBundler:
             self.emit_sync(DocumentNames.event, doc)
 
     def rewind(self):
+        # Monitor and interruption events are never re-taken after a rewind,
+        # so their counters must keep counting.
+        not_replayed = {
+            key: counter
+            for key, counter in self._sequence_counters.items()
+            if key in self._monitor_streams or key == "interruptions"
+        }
         self._sequence_counters.clear()
         self._sequence_counters.update(self._sequence_counters_copy)
+        self._sequence_counters.update(not_replayed)
         # make sure we do not forget about streams we roll back to the
         # very beginning of
         for desc_key in self._descriptor_objs:
